@@ -203,8 +203,9 @@ Definition fuel0 : nat := 40.
 Definition tick_ms (c : config) (s : sim) : sim :=
   settle c fuel0 {| now := now s + 1; rsims := rsims s; ph := ph s |}.
 
-Fixpoint advance (c : config) (n : nat) (s : sim) : sim :=
-  match n with O => s | S n' => advance c n' (tick_ms c s) end.
+Fixpoint iter_sim (f : sim -> sim) (n : nat) (s : sim) : sim :=
+  match n with O => s | S n' => iter_sim f n' (f s) end.
+Definition advance (c : config) (n : nat) (s : sim) : sim := iter_sim (tick_ms c) n s.
 
 (* wrapper.start() at time 0 *)
 Definition start (c : config) (scripts : list (list (status * Z))) : sim :=
@@ -213,6 +214,30 @@ Definition start (c : config) (scripts : list (list (status * Z))) : sim :=
        rsims := map (fun sc => {| r_state := rinit; r_script := sc; r_pending := None;
                                   r_started := 0; r_finished := 0; r_hist := [] |}) scripts;
        ph := PInit (init_delay c) |}.
+
+(* ---------------- vocabulary of the statements in Props/C18.v (definitions only) ---------------- *)
+Definition is_unknown (x : status) : bool := match x with Unknown => true | _ => false end.
+Definition is_unhealthy (x : status) : bool := match x with Unhealthy => true | _ => false end.
+(* the results that count: Unknown answers are dropped *)
+Definition nonunk (rs : list status) : list status := filter (fun x => negb (is_unknown x)) rs.
+(* length of the trailing run of elements satisfying p *)
+Fixpoint lead (p : status -> bool) (l : list status) : nat :=
+  match l with [] => O | x :: t => if p x then S (lead p t) else O end.
+Definition trail (p : status -> bool) (l : list status) : nat := lead p (rev l).
+(* the last n elements of l all satisfy p *)
+Definition all_suffix (p : status -> bool) (n : nat) (l : list status) : Prop :=
+  exists pre run, l = pre ++ run /\ length run = n /\ Forall (fun x => p x = true) run.
+Definition implies_usable (flt : status -> bool) : Prop := forall s, flt s = true -> is_usable s = true.
+(* how often resource i was selected *)
+Definition count_sel (i : nat) (l : list (option nat)) : nat :=
+  length (filter (fun o => match o with Some j => Nat.eqb j i | None => false end) l).
+(* the k-th scripted answer of a checker script, and the effective result of that check *)
+Definition answer_at (orig : list (status * Z)) (k : nat) : status * Z := nth k orig (Healthy, 0).
+Definition eff_at (c : config) (orig : list (status * Z)) (k : nat) : status :=
+  effective (timeout c) (fst (answer_at orig k)) (snd (answer_at orig k)).
+(* the wrapper after start() and any sequence of waits (virtual ms) *)
+Definition reach (c : config) (scripts : list (list (status * Z))) (waits : list nat) : sim :=
+  fold_left (fun s n => advance c n s) waits (start c scripts).
 
 (* ---------------- script interface ----------------
    script = [n_res; failure_threshold; success_threshold; interval; timeout; initial_delay; strategy;
